@@ -278,6 +278,53 @@ func factsHashring() {
 	emitList("shardTake", "pkg/receive/hashring.go getTenantShard: how many nodes are taken per zone", takeSkel)
 	emitStr("shardSubRing", "pkg/receive/hashring.go getTenantShard: the sub-ring construction", subRing)
 
+	// ---- C21: the sub-ring cache belongs to the hashring instance
+	var lruIn []string
+	if f != nil {
+		for _, d := range f.Decls {
+			if fd, ok := d.(*ast.FuncDecl); ok && fd.Body != nil {
+				found := false
+				ast.Inspect(fd.Body, func(n ast.Node) bool {
+					if c, ok := n.(*ast.CallExpr); ok && strings.HasPrefix(text(c.Fun), "lru.New") {
+						found = true
+					}
+					return !found
+				})
+				if found {
+					lruIn = append(lruIn, fd.Name.Name)
+				}
+			}
+		}
+	}
+	emitList("shuffleShardLruConstructedIn", "pkg/receive/hashring.go: the functions that construct an LRU (lru.NewWithEvict)", lruIn)
+	var mfields []string
+	cacheField := "unknown"
+	if f != nil {
+		ast.Inspect(f, func(n ast.Node) bool {
+			switch x := n.(type) {
+			case *ast.TypeSpec:
+				if st, ok := x.Type.(*ast.StructType); ok && x.Name.Name == "shuffleShardCacheMetrics" {
+					for _, fl := range st.Fields.List {
+						for _, nm := range fl.Names {
+							mfields = append(mfields, nm.Name)
+						}
+					}
+				}
+			case *ast.CompositeLit:
+				if strings.HasSuffix(text(x.Type), "shuffleShardHashring") {
+					for _, el := range x.Elts {
+						if kv, ok := el.(*ast.KeyValueExpr); ok && text(kv.Key) == "cache" {
+							cacheField = text(kv)
+						}
+					}
+				}
+			}
+			return true
+		})
+	}
+	emitList("shuffleShardMetricsFields", "pkg/receive/hashring.go: the fields of the (shared) shuffleShardCacheMetrics value", mfields)
+	emitStr("shuffleShardCacheField", "pkg/receive/hashring.go newShuffleShardHashring: the cache field of the hashring literal", cacheField)
+
 	// ---- C20: what a section hash is computed from
 	hin := "unknown"
 	if b := body(fn(f, "", "newKetamaHashring")); b != nil {
